@@ -336,7 +336,7 @@ def evalUn (op : UOp) (v : Option Val) : Option Val :=
 /-- three-valued `l IN items`: true when some item equals, else unknown when some comparison is
 unknown (a NULL or an item without a value), else false -/
 def in3 (q : Quirks) (l : Val) (items : List (Option Val)) : Option Val :=
-  let rs := items.map (fun i => i.bind (eq3 q l))
+  let rs := items.map (fun i => i.bind (eq3 { q with nullEq := false } l))
   if rs.any (· == some true) then some (.bool true)
   else if rs.any (· == none) then none
   else some (.bool false)
@@ -461,9 +461,60 @@ def sortOp (cap : Nat) (keys : List SortKey) (cs : List (List Row)) : List (List
 
 /-! ### where the sort comparator is a total preorder -/
 
-/-- comparison class of a value: 0 NULL (placed by the null order, never compared), 1 boolean,
-2 string, 3 integer that `as f64` converts exactly (|i| ≤ 2^53), 4 other integer, 5 float that is
-not NaN, 6 NaN -/
+/-- kind of a value as the sort comparator sees it: 0 NULL, 1 boolean, 2 string, 3 integer,
+5 float that is not NaN, 6 NaN -/
+def kind1 : Val → Nat
+  | .null => 0
+  | .bool _ => 1
+  | .str _ => 2
+  | .int _ => 3
+  | .flt b => if isNaN b then 6 else 5
+
+/-- every row has the column and holds NULL or a value of kind `K` there -/
+def uniformCol (K : Nat) (col : Nat) (rows : List Row) : Bool :=
+  rows.all (fun r =>
+    match r[col]? with
+    | some v => kind1 v == 0 || kind1 v == K
+    | none => false)
+
+/-- no row has the column (the key compares "equal" throughout) -/
+def absentCol (col : Nat) (rows : List Row) : Bool := rows.all (fun r => r[col]?.isNone)
+
+/-- the key under which an integer is compared with floats: `i as f64`, as an ordered key -/
+def convKey (a : Int) : Int := key (i64ToF64 a)
+
+def dedupInts : List Int → List Int
+  | [] => []
+  | a :: as => if a ∈ dedupInts as then dedupInts as else a :: dedupInts as
+
+def colInts (col : Nat) (rows : List Row) : List Int :=
+  dedupInts (rows.filterMap (fun (r : Row) => match r[col]? with | some (Val.int a) => some a | _ => none))
+
+/-- `i as f64` keeps the integers in `ints` apart and in order (it does for |i| ≤ 2^53; beyond,
+neighbours collapse) -/
+def convMonotone (ints : List Int) : Bool :=
+  let ks := ints.map (fun a => (a, convKey a, isNaN (i64ToF64 a)))
+  ks.all (fun x => !x.2.2 && ks.all (fun y => !(x.1 < y.1) || x.2.1 < y.2.1))
+
+/-- a numeric column: NULLs, integers and non-NaN floats, the integers present converting to
+floats without collapsing -/
+def numericCol (col : Nat) (rows : List Row) : Bool :=
+  rows.all (fun r =>
+    match r[col]? with
+    | some .null => true
+    | some (.int _) => true
+    | some (.flt b) => !isNaN b
+    | _ => false) && convMonotone (colInts col rows)
+
+/-- the condition under which the comparator of `sort.rs` is a total preorder on the rows: every
+key column is absent, or of one kind (booleans, strings, integers, non-NaN floats, NaNs — plus
+NULLs), or numeric with exactly ordered conversions. Decidable on the table. -/
+def orderedKeys (keys : List SortKey) (rows : List Row) : Bool :=
+  keys.all (fun k => absentCol k.col rows || [1, 2, 3, 5, 6].any (fun K => uniformCol K k.col rows) ||
+    numericCol k.col rows)
+
+/-- comparison class of a value, for naming what went wrong: 0 NULL, 1 boolean, 2 string, 3 integer
+with |i| ≤ 2^53, 4 other integer, 5 float that is not NaN, 6 NaN -/
 def vclass : Val → Nat
   | .null => 0
   | .bool _ => 1
@@ -471,22 +522,65 @@ def vclass : Val → Nat
   | .int i => if -(2 ^ 53) ≤ i ∧ i ≤ 2 ^ 53 then 3 else 4
   | .flt b => if isNaN b then 6 else 5
 
-/-- two classes may occur in the same sort column -/
-def compat (a b : Nat) : Bool :=
-  a == 0 || b == 0 || a == b || (a == 3 && b == 4) || (a == 4 && b == 3) || (a == 3 && b == 5) || (a == 5 && b == 3)
-
 def insertNat (x : Nat) (l : List Nat) : List Nat := if l.contains x then l else x :: l
-
-/-- the values of one column are mutually comparable: one kind (booleans, strings, integers,
-non-NaN floats, NaNs), or exactly convertible integers together with non-NaN floats -/
-def safeCol (vals : List Val) : Bool :=
-  let ks := vals.foldl (fun acc v => insertNat (vclass v) acc) []
-  ks.all (fun a => ks.all (fun b => compat a b))
 
 def colVals (col : Nat) (rows : List Row) : List Val := rows.map (fun r => r[col]?.getD .null)
 
-def safeRows (keys : List SortKey) (rows : List Row) : Bool :=
-  keys.all (fun k => safeCol (colVals k.col rows))
+/-! ### what `sort_by` does when the comparator is not a total preorder, and the specification -/
+
+/-- `insertion_sort_shift_left` of `core::slice::sort` — the whole of the stable `sort_by` for
+slices of at most 20 elements: every element in turn moves left past the elements it is
+strictly less than (`insRight lt x l`: `x` arrives at the right end of the prefix `l`). -/
+def insRight {α : Type} (lt : α → α → Bool) (x : α) (l : List α) : List α :=
+  (l.reverse.dropWhile (lt x)).reverse ++ x :: (l.reverse.takeWhile (lt x)).reverse
+
+def insSort {α : Type} (lt : α → α → Bool) (l : List α) : List α :=
+  l.foldl (fun acc x => insRight lt x acc) []
+
+/-- rank of a value in the specification's order of all values (ascending: strings, booleans,
+numbers by exact value, NaN after every number) -/
+def specRank : Val → Nat × Int × List Nat
+  | .null => (4, 0, [])
+  | .str s => (0, 0, s)
+  | .bool b => (1, if b then 1 else 0, [])
+  | .int i => (2, i * 2 ^ 1074, [])
+  | .flt b =>
+    if isNaN b then (3, 0, [])
+    else if expField b = 2047 then (2, if signBit b = 1 then -(2 ^ 4000) else 2 ^ 4000, [])
+    else (2, scaled b, [])
+
+def specCmpVals (a b : Val) : Ordering :=
+  let x := specRank a
+  let y := specRank b
+  if x.1 < y.1 then .lt else if y.1 < x.1 then .gt
+  else if x.2.1 < y.2.1 then .lt else if y.2.1 < x.2.1 then .gt
+  else cmpBytes x.2.2 y.2.2
+
+def specCmpWithNulls (nullsFirst : Bool) : Option Val → Option Val → Ordering
+  | none, none => .eq
+  | some .null, some .null => .eq
+  | none, _ => if nullsFirst then .lt else .gt
+  | some .null, _ => if nullsFirst then .lt else .gt
+  | _, none => if nullsFirst then .gt else .lt
+  | _, some .null => if nullsFirst then .gt else .lt
+  | some x, some y => specCmpVals x y
+
+def specKeyCmp (k : SortKey) (a b : Row) : Ordering :=
+  let o := specCmpWithNulls k.nullsFirst a[k.col]? b[k.col]?
+  if k.asc then o else flipOrd o
+
+def specCmpRows : List SortKey → Row → Row → Ordering
+  | [], _, _ => .eq
+  | k :: ks, a, b => if specKeyCmp k a b = .eq then specCmpRows ks a b else specKeyCmp k a b
+
+def specRowLe (keys : List SortKey) (a b : Row) : Bool := specCmpRows keys a b != .gt
+
+/-- the rows as `sort_by` leaves them: the stable sort where the comparator is a total preorder;
+the insertion sort for at most 20 rows; otherwise nothing is promised (`none`) -/
+def sortRows (keys : List SortKey) (rows : List Row) : Option (List Row) :=
+  if orderedKeys keys rows then some (rows.mergeSort (rowLe keys))
+  else if rows.length ≤ 20 then some (insSort (fun a b => cmpRows keys a b == .lt) rows)
+  else none
 
 /-! ## D. `aggregate.rs`: `count(*)`, `count(col)` without GROUP BY -/
 
@@ -558,6 +652,15 @@ def Stage.spec : Stage → List Row → List Row
   | .limit n, rows => rows.take n
   | .window s n, rows => (rows.drop s).take n
 
+/-- the same with ORDER BY under the specification's total order of all values -/
+def Stage.specT : Stage → List Row → List Row
+  | .sort keys, rows => rows.mergeSort (specRowLe keys)
+  | st, rows => st.spec rows
+
+def specChainT : List Stage → List Row → List Row
+  | [], rows => rows
+  | st :: rest, rows => specChainT rest (st.specT rows)
+
 def specChain : List Stage → List Row → List Row
   | [], rows => rows
   | st :: rest, rows => specChain rest (st.spec rows)
@@ -566,5 +669,25 @@ def specChain : List Stage → List Row → List Row
 def splitChunks {α : Type} : List Nat → List α → List (List α)
   | [], rows => if rows.isEmpty then [] else [rows]
   | n :: ns, rows => rows.take n :: splitChunks ns (rows.drop n)
+
+/-! ## F. query level: a node property that is missing has no value -/
+
+mutual
+/-- at query level a row is a node and a NULL cell is a property the node does not have:
+`Property` access then yields no value (`None`), not `Some(Null)` -/
+def Ex.onNode : Ex → Row → Ex
+  | .lit v, _ => .lit v
+  | .col k, r => if r[k]? == some .null then .mis else .col k
+  | .mis, _ => .mis
+  | .bin op l rr, r => .bin op (l.onNode r) (rr.onNode r)
+  | .un op e, r => .un op (e.onNode r)
+  | .inl l items, r => .inl (l.onNode r) (items.onNode r)
+def ExList.onNode : ExList → Row → ExList
+  | .nil, _ => .nil
+  | .cons h t, r => .cons (h.onNode r) (t.onNode r)
+end
+
+/-- `WHERE p` on a node -/
+def passesNode (q : Quirks) (e : Ex) (r : Row) : Bool := passes q (e.onNode r) r
 
 end Grafeo.Ops2
